@@ -151,13 +151,36 @@ def default_of(ty):
     return ("default", s)
 
 
+def local_default(px, ty):
+    """value of a crate-local `impl Default for T` whose body is straight-line (evaluated from its MIR), else None"""
+    adt = ty.get("adt") or (ty.get("s", "").split("<")[0])
+    cache = px.facts.__dict__.setdefault("_local_defaults", {})
+    if adt in cache:
+        return cache[adt]
+    v = None
+    for f in px.facts.fns.values():
+        if f.get("impl_trait") == "std::default::Default" and (f.get("impl_self") or "").split("<")[0] == adt and f["path"] in px.facts.bodies:
+            from .px import PX as _PX
+            sub = _PX(px.facts, models=px.models, inline=lambda c, d: True)
+            try:
+                outs = [o for o in sub.run(f["path"]) if o.kind == "return"]
+            except Exception:
+                outs = []
+            if len(outs) == 1:
+                v = outs[0].value
+    cache[adt] = v
+    return v
+
+
 @model("std::mem::take", reason="mem::take returns the old value and leaves Default::default()")
 def m_take(px, st, fr, ev):
     a = ev["args"][0]
     if a[0] != "ref":
         return None
     old = px._read(st, a[1], a[2])
-    dflt = default_of(ev["dest"]["ty"])
+    dflt = local_default(px, ev["dest"]["ty"])
+    if dflt is None:
+        dflt = default_of(ev["dest"]["ty"])
 
     def do(s):
         px._write(s, a[1], a[2], dflt)
@@ -582,6 +605,42 @@ def m_call_closure(px, st, fr, ev):
     return [frag]
 
 
+@model("std::iter::Iterator::fold", reason="fold(init, f): summarised like a loop - the accumulator after any number of items is a "
+       "fresh loop variable; one application of f to it (and a fresh item) is analysed as the loop body")
+def m_fold(px, st, fr, ev):
+    if len(ev["args"]) != 3:
+        return None
+    it, init, f = ev["args"]
+    body = closure_body(f)
+    if body is None or body not in px.facts.bodies:
+        return None
+    info = fr.info
+    header = ("fold", fr.bb)
+    sig = px.chain_sig(st)
+    key = ("F", 0, ())
+    acc = ("loopvar", info.name, header, key, 0) + ((sig,) if sig else ())
+    ty = ev["dest"]["ty"]
+    if ty.get("k") == "bool":
+        px.mark_bool(acc)
+    if ty.get("k") == "int":
+        TY[acc] = (ty["bits"], ty["signed"])
+    item = ("fold_item", info.name, fr.bb, sig)
+
+    def do(s):
+        lev = s.extra.setdefault("loop_entry_values", {})
+        lev[(info.name, header, key)] = init
+        if sig:
+            lev[(info.name, header, key, sig)] = init
+        # the iterator is consumed by the fold
+        if isinstance(it, tuple) and it and it[0] == "ref" and it[3]:
+            px._write(s, it[1], it[2], ("havoc", ("call", "std::iter::Iterator::fold", (("&", px._read(s, it[1], it[2])),), ev["uid"]), 0))
+        px.emit(s, {"k": "loop_enter", "fn": info.name, "bb": header, "sig": sig})
+    return [
+        {"label": "fold-exit", "value": acc, "do": do},
+        {"label": "fold-step", "inline": body, "args": call_args(f, [acc, item]), "end_as": (info.name, header), "do": do},
+    ]
+
+
 @model("std::ops::Try::branch", reason="`?`: Ok/Some -> Continue(payload); Err/None -> Break(residual)")
 def m_try_branch(px, st, fr, ev):
     t = ev["args"][0]
@@ -801,6 +860,13 @@ def m_eq(px, st, fr, ev):
         return val(st.cons.lookup(mk_binop("Eq", x, y)))
     if x[0] in ("str", "bytes") and y[0] in ("str", "bytes"):
         return val(const(int(x[1] == y[1])))
+    for u, lit in ((x, y), (y, x)):
+        if isinstance(lit, tuple) and lit[0] in ("str", "bytes") and lit[1] == "" and isinstance(u, tuple):
+            # s == "" is s.is_empty()
+            ln = len_term(u)
+            if isinstance(ln, tuple) and ln[0] == "binop" and ln[1] == "Sub":
+                return val(st.cons.lookup(mk_binop("Eq", ln[2], ln[3])))
+            return val(st.cons.lookup(mk_binop("Eq", ln, const(0))))
     t = ("eq", x, y)
     px.mark_bool(t)
     return val(st.cons.lookup(t))
@@ -1035,7 +1101,9 @@ def m_fmtarg(px, st, fr, ev):
     tr = ev["callee"]["path"].split("::")[-1][4:]
     targs = ev["callee"].get("targs") or []
     ty = targs[0]["s"] if targs else "?"
-    v = deref_val(px, st, ev["args"][0], depth=2)
+    if ty.lstrip("&") in ("u8", "u16", "u32", "u64", "usize", "i8", "i16", "i32", "i64", "isize"):
+        ty = ty.lstrip("&")     # Display / LowerHex of `&uN` is that of `uN`
+    v = deref_val(px, st, ev["args"][0], depth=3)
     return val(("fmtarg", tr, ty, v))
 
 
@@ -1137,9 +1205,11 @@ def m_b_header(px, st, fr, ev):
         o = ev["argops"][i]
         tys.append(o.get("place", {}).get("ty", {}).get("s") or o.get("ty", {}).get("s", ""))
     v = ev["args"][2]
+    if isinstance(v, tuple) and v and v[0] in ("ref", "refconst") and "HeaderValue" in tys[1]:
+        v = deref_val(px, st, v, depth=2)       # `&HeaderValue` is converted by cloning: the header carries the referent's value
     from_httpdate = isinstance(v, tuple) and v and v[0] == "call" and v[1].endswith("httpdate::fmt_http_date")
     taint = b[3] or not ("HeaderName" in tys[0] and ("HeaderValue" in tys[1] or from_httpdate))
-    return val(mk_builder(b[1], b[2] + ((ev["args"][1], ev["args"][2], ev["uid"]),), taint))
+    return val(mk_builder(b[1], b[2] + ((ev["args"][1], v, ev["uid"]),), taint))
 
 
 def mk_response(status, headers, body):
